@@ -166,7 +166,17 @@ def judge(rec, text, origin, sel=None):
     rec.ev()
     if out.ok:
         try:
-            n = render_all(out.chart)
+            if len(text) % 3 == 1:
+                # rendering is not printing: with sys.stdout replaced by an object without a usable encoding (contextlib.redirect_stdout
+                # into a StringIO, a GUI's stream) str() and repr() still return
+                import contextlib
+                import io
+
+                with contextlib.redirect_stdout(io.StringIO()), contextlib.redirect_stderr(io.StringIO()):
+                    n = render_all(out.chart)
+                rec.cls("rendered_with_stdout_redirected_to_an_object_without_encoding")
+            else:
+                n = render_all(out.chart)
             if len(text) % 2 == 0:
                 # ... also after the chart has been USED: derived attributes read and rate queries asked (documented errors allowed);
                 # whatever those leave behind in the objects must still render
